@@ -68,6 +68,14 @@ CHECKS["C10"] = dict(
     note="Bound: 2-call histories, one interruption, 4 stacks x 6 first operations (thorough 6 x 15). " + NETNOTE,
     design="3 (C10)", technique=CH)
 
+CHECKS["C07"] = dict(
+    text="Bounded symbolic execution of every read method/call shape of Client, PooledClient and HashClient with "
+         "ignore_exc=True under a symbolic fault (position, kind, cut), a raising deserializer, and with nothing listening "
+         "(until eviction): the call must not raise and must return, value and type, what the same call expression returns "
+         "on a healthy server without the key (computed in the same path); afterwards set+get must work. All shards exhaust.",
+    note="Bound: one fault per call, int defaults (symbolic), 8 (thorough 12) call shapes x 3 (5) stacks. " + NETNOTE,
+    design="3 (C07)", technique=CH)
+
 NOT_YET = {}
 
 NA_REASON_PENDING = "check not built yet in this session (planned; see DESIGN.md section 3)"
